@@ -104,7 +104,10 @@ fn main() {
     if let Some(p) = &args.progress {
         shell::open_progress(p);
     }
-    let mut mon: Box<dyn Monitor> = match monitors::make(&args.prop) {
+    if matches!(args.flavour.as_str(), "miri" | "vg") {
+        gen::set_small(true);
+    }
+    let mut mon: Box<dyn Monitor> = match monitors::make(&args.prop, &args.flavour) {
         Some(m) => m,
         None => {
             eprintln!("unknown property {}", args.prop);
